@@ -63,7 +63,8 @@ UNITS = {
     "stringly-typed": dict(cmd="stringly-typed", prefix="stringly-typed.", langs=["python"],
                            limits=[("min_occurrences", "occurrences", -1), ("min_values_for_enum", "values", -1), ("max_values_for_enum", "values", +1)],
                            lang_over=["min_occurrences", "min_values_for_enum", "max_values_for_enum"],
-                           guarded=["min_occurrences", "min_values_for_enum"], ignore=True, any_count=True, neutral={"occurrences": 2, "values": 3}),
+                           guarded=["min_occurrences", "min_values_for_enum"], bounds={"min_values_for_enum": 2},   # smallest valid value where it is not 1
+                           ignore=True, any_count=True, neutral={"occurrences": 2, "values": 3}),
     "file-header": dict(cmd="file-header", prefix="file-header.", langs=["python"], always=["no_header"], ignore=True),
     "lazy-ignores": dict(cmd="lazy-ignores", prefix="lazy-ignores", langs=["python"], always=["noqa"]),
     "lbyl": dict(cmd="lbyl", prefix="lbyl", langs=["python"], switches=[("detect_dict_key", "dict_key_check")], switch_always=True),
@@ -973,7 +974,10 @@ def in_defect_class(flag: str, case: dict) -> bool:
                 for opt in u.get("guarded", []):
                     if flag.startswith("language_block") and isinstance(blk.get(opt), str):
                         return True      # only a TypeError (string limit inside the block) triggers the retry
-                    if flag.startswith("invalid_top") and opt in blk and opt in sec and (isinstance(sec[opt], str) or sec[opt] <= 0):
+                    # the top-level value: what the section says, replaced by a CLI threshold option (written at the top level only)
+                    cli_vals = [z for o, z in case["overrides"] if o == (u.get("cli") or {}).get(opt)]
+                    top = cli_vals[-1] if cli_vals else sec.get(opt)
+                    if flag.startswith("invalid_top") and opt in blk and top is not None and (isinstance(top, str) or top < u.get("bounds", {}).get(opt, 1)):
                         return True
         return False
     if flag == "thailint_json_is_not_a_root_marker":
